@@ -85,8 +85,8 @@ def check(rep, tier, seed):
                     known.setdefault(key, {"line": l, "case": kk, "meta": m, "cases_file": cfile})
                 if l.startswith("K "):
                     nb += 1
-                    res_part = l.split("|")[1].split()
-                    if res_part[0] == "0":
+                    res_part = (l.split("|") + [""])[1].split()     # a line cut short (crash/watchdog) is reported through the exit status and the diff
+                    if res_part and res_part[0] == "0":
                         dist["truncated_or_min_choice"] += 1
                 if l.startswith("setup "):
                     dist["setup_refused"] += 1
